@@ -139,6 +139,20 @@ class SObj:
     def __repr__(self):
         return "<SObj %s %s>" % (self.cls.__name__, sorted(self.fields))
 
+    def __copy__(self):
+        # copy.copy of an instance: new object, attribute dict copied one level
+        o = SObj(self.cls)
+        o.fields.update(self.fields)
+        return o
+
+    def __deepcopy__(self, memo):
+        import copy as _copy
+        o = SObj(self.cls)
+        memo[id(self)] = o
+        for k, v in self.fields.items():
+            o.fields[k] = _copy.deepcopy(v, memo)
+        return o
+
 
 class IFunc:
     def __init__(self, node, module, closure, interp, defining_class=None, qualname=None):
